@@ -197,6 +197,20 @@ PROPS["C10"] = dict(
     trusted=COMMON_TRUST, excluded=["size bound and victim choice of the three eviction containers (assumed contract, not proved)", "concurrent misses on the same key each call the inner service (consistent with the statement)"],
 )
 
+PROPS["C06"] = dict(
+    units=["timelimiter"],
+    title="Time limiter resolves every call by its deadline",
+    level_text="Deductive proof (Verus) on the real body of TimeLimiter::call, RELATIVE TO ASSUMED TIMED CONTRACTS OF TOKIO'S TIMER: the duration handed to the timer is get_timeout evaluated on this request (fixed: the configured "
+               "duration; per-request: what the function returns for this request), before the future is built and with no await before the timer is created; in cancel mode exactly one inner call with the unchanged request, "
+               "the result is the inner outcome (Ok / Inner(e)) when it arrives in time and otherwise the Timeout error with the inner future dropped; the cancel_running_future flag selects between the two modes.",
+    level_note="ALL timing is tokio's: timeout(d,f) returns the inner result as soon as it is available within d, or Elapsed at exactly d, dropping f (assumed). The non-cancelling mode (tokio::spawn + oneshot + select!) is "
+               "outside the dialect: replaced by an opaque effect (R15), nothing is claimed for executions through it.",
+    technique="contract-based deductive verification (Verus): effect-trace contract relative to assumed timer contracts",
+    design_ref="§6 C06",
+    assumptions=["tokio::time::timeout contract (all real-time content of the property)", "straight-line code takes no virtual time"],
+    trusted=COMMON_TRUST, excluded=["non-cancelling mode: the inner call keeps running in the background (R15 opaque block)", "timer accuracy"],
+)
+
 NOT_APPLICABLE = {
     "C12": "not built: hedge's body is a tokio::select! loop over spawned tasks; needs the select!/spawn rewrite R17 (DESIGN §7); nothing weaker is claimed in its place",
 }
